@@ -53,7 +53,7 @@ def cells(tier, seed):
     out = []
     waves = refs.all_wavelets()
     n1 = 3 if tier == 'quick' else 40
-    n2 = 1 if tier == 'quick' else 10
+    n2 = 1 if tier == 'quick' else 30
     for w in waves:
         L = refs.flen(w)
         pool = lengths_pool(L)
